@@ -264,6 +264,77 @@ def work_diamonds(chunk):
     return {"evals": len(chunk) * 3, "hist": hist, "viol": viol}
 
 
+# (d) decoys: main -> B -> C with B in another directory than main. The path B uses for C also
+# names a file when it is read against main's directory (and against the working directory):
+# a decoy with another value and another type. Only B's own directory may decide.
+DECOY_LAYOUTS = [
+    # (main, B, C)
+    ("main.ucg", "sub/b.ucg", "sub/c.ucg"),
+    ("main.ucg", "sub/b.ucg", "sub/inner/c.ucg"),
+    ("main.ucg", "sub/deep/b.ucg", "sub/c.ucg"),
+    ("top/main.ucg", "top/sub/b.ucg", "top/sub/c.ucg"),
+    ("top/main.ucg", "other/b.ucg", "other/c.ucg"),
+    ("top/main.ucg", "b.ucg", "c.ucg"),
+]
+
+
+def decoy_project(layout, spell_main, spell_b, kind):
+    main, b, c = layout
+    rel_bc = relpath(b, c)
+    files = {}
+    if kind == "import":
+        real, decoy = 'let t = TRACE 102;\nlet val = "real";\n', 'let t = TRACE 666;\nlet val = 1;\n'
+        use_c = ('let c = import "%s";\nlet n = c.val + "-b";\n' % rel_bc) if spell_b == "let" else ('let n = (import "%s").val + "-b";\n' % rel_bc)
+    else:
+        # (include str: arithmetic on an included json scalar is a recorded C07 finding of its own)
+        real, decoy = "real", "decoy"
+        use_c = 'let n = (include str "%s") + "-b";\n' % rel_bc
+    files[c] = real
+    files[b] = "let t = TRACE 101;\n" + use_c
+    rel_mb = relpath(main, b)
+    use_b = ('let b = import "%s";\nlet n = b.n;\n' % rel_mb) if spell_main == "let" else ('let n = (import "%s").n;\n' % rel_mb)
+    files[main] = "let t = TRACE 100;\n" + use_b + "out json {n = n};\n"
+    # the decoys: the same relative path read against main's directory, the project root and a sub-directory used as cwd
+    for base in (os.path.dirname(main), "", "cwd"):
+        dp = os.path.normpath(os.path.join(base, rel_bc))
+        if not dp.startswith("..") and dp not in files:
+            files[dp] = decoy
+    return files
+
+
+def work_decoys(chunk):
+    hist = {}
+    viol = []
+    for li, spell_main, spell_b, kind in chunk:
+        layout = DECOY_LAYOUTS[li]
+        d = tempfile.mkdtemp(prefix="ucgverif-c09-")
+        try:
+            files = decoy_project(layout, spell_main, spell_b, kind)
+            write_project(d, files)
+            os.makedirs(os.path.join(d, "cwd"), exist_ok=True)
+            bad = None
+            for cwd in (d, os.path.join(d, "cwd"), "/"):
+                rc, err, val = build(d, layout[0], cwd)
+                if rc is None or rc not in (0, 1):
+                    bad = "exit-status-%s" % rc
+                elif rc != 0:
+                    bad = "valid-project-fails"
+                elif not isinstance(val, dict) or val.get("n") != "real-b":
+                    bad = "wrong-value"
+                elif "TRACE: 666" in err:
+                    bad = "decoy-evaluated"
+                if bad:
+                    break
+            k = "decoy-%s:%s" % (kind, "agrees" if bad is None else "VIOLATION")
+            hist[k] = hist.get(k, 0) + 1
+            if bad:
+                viol.append(("decoy:%s:%s:%s:%s" % (kind, "main-" + spell_main, "b-" + spell_b, bad), {"decoy_layout": li, "spell_main": spell_main, "spell_b": spell_b, "kind": kind},
+                             {"rc": rc, "value": val, "stderr": err[-400:], "files": sorted(files)}))
+        finally:
+            shutil.rmtree(d, ignore_errors=True)
+    return {"evals": len(chunk) * 3, "hist": hist, "viol": viol}
+
+
 def all_graphs(n):
     pairs = [(a, b) for a in range(n) for b in range(n)]
     for mask in range(1 << len(pairs)):
@@ -294,7 +365,9 @@ def run(ctx):
                   "diamonds": len(diamonds)}
     ctx.rule = ("every digraph on 1..3 files incl. self-loops (thorough: + all 4 096 digraphs on 4 files without self-loops) x {let, inline} import "
                 "spelling x directory layouts; %d syntactic positions x {import, include json} x path spellings, each built from the project "
-                "directory, a sub-directory and /; %d diamonds reaching one file under 2-3 spellings, from 3 working directories. evaluations "
+                "directory, a sub-directory and /; %d diamonds reaching one file under 2-3 spellings, from 3 working directories; 6 layouts "
+                "main -> B -> C (B outside main's directory) x {let, inline} x {let, inline} x {import, include} in which the path B uses for C "
+                "also names a decoy of another type against main's directory, the project root and the working directory. evaluations "
                 "= builds; all cases distinct; non-trivial = the graph has an edge / the case contains an import." % (len(POSITIONS), len(diamonds)))
     viol = []
 
@@ -308,6 +381,10 @@ def run(ctx):
     for part in core.pmap(work_positions, positions, chunk=4):
         absorb(part)
     for part in core.pmap(work_diamonds, diamonds, chunk=3):
+        absorb(part)
+    decoys = [(li, sm, sb, kind) for li in range(len(DECOY_LAYOUTS)) for sm in ("let", "inline") for sb in ("let", "inline") for kind in ("import", "include")
+              if not (kind == "include" and sb == "inline")]
+    for part in core.pmap(work_decoys, decoys, chunk=2):
         absorb(part)
     ctx.sample({"graph": {"n": 2, "edges": [[0, 1], [1, 0]], "spelling": "inline"}, "model": "exit 1, diagnostic mentions the cycle"})
     ctx.sample({"position": "map-callback", "source": 'let r = map(func (i) => (import "./d/lib.ucg").v + i, [0]).0;', "cwds": ["p", "p/d", "/"]})
@@ -328,6 +405,8 @@ def replay(case):
     elif "position" in c:
         tpl = dict(POSITIONS)[c["position"]]
         part = work_positions([(c["position"], tpl, c["kind"], c["spelling"])])
+    elif "decoy_layout" in c:
+        part = work_decoys([(c["decoy_layout"], c["spell_main"], c["spell_b"], c["kind"])])
     else:
         part = work_diamonds([tuple(c["spellings"])])
     return not part["viol"], {"violations": part["viol"]}
